@@ -297,6 +297,17 @@ def gen_requests(rng, size, unit, n=6, sector=None, raw_align=1, max_bytes=4_000
     reqs.append(["raw", a, short])
     reqs.append(["raw", a, max(raw_align, long_)])
     reqs.append(["raw", a, short])
+    # ... and a read that stops inside a unit, a read somewhere else, then the continuation exactly where the first stopped
+    if size > 4 * max(raw_align, 512):
+        g = max(raw_align, 512)
+        a1 = rng.randrange(0, max(1, (size - 2 * g) // g)) * g
+        n1 = g * rng.randint(1, max(1, min(unit // g // 2, 16)))
+        n1 = min(n1, max(g, (size - a1) // 2 // g * g), 1 << 20)
+        other = rng.randrange(0, max(1, size // g)) * g
+        reqs.append(["raw", a1, n1])
+        reqs.append(["raw", other, min(g, size - other)])
+        if size - (a1 + n1) > 0:
+            reqs.append(["raw", a1 + n1, max(g, min(size - a1 - n1, n1 + unit, max_bytes, 2 << 20) // g * g)])
     return reqs
 
 
